@@ -7,6 +7,7 @@
 (*            equal LevelBytes; every range starts behind header + palette / JPEG header, ends inside *)
 (*            the file, and ranges are pairwise disjoint                                            *)
 (*   Parse    accepted; structure token equals the token of the encoded structure                   *)
+(*   Levels   every parsed level decodes to Dim(i) (for JPEG: the dimensions in the JPEG stream)     *)
 (*   Decode   raw BGRA: decoded level 0 = source pixels; palettised: every colour is a palette      *)
 (*            entry and every (source alpha, decoded alpha) pair satisfies QuantOk(bits)            *)
 (* D-conjuncts (DRIFT): levels laid out back to back from DataStart, file ends after the last one,   *)
@@ -47,11 +48,16 @@ DecodeP(e) == IF e.res # "ok" THEN <<FALSE, "decode-failed">>
               ELSE IF e.palBad # 0 THEN <<FALSE, "colour-not-in-palette">>
               ELSE <<\A ti \in 1..Len(e.pairs) : QuantOk(tcase.alpha, e.pairs[ti][1], e.pairs[ti][2]), "alpha-quant">>
 
+\* every parsed level decodes, and to the dimensions of the chain (JPEG: the dimensions inside the stream)
+LevelsP(e) == IF e.res # "ok" THEN <<FALSE, "level-decode-failed">>
+              ELSE <<e.dims = Chain(tcase.w, tcase.h, tcase.mips), "level-dims">>
+
 PofEvent(e) == CASE e.ev = "Convert" -> ConvertP(e)
                  [] e.ev = "Encode"  -> EncodeP(e)
                  [] e.ev = "Header"  -> HeaderP(e)
                  [] e.ev = "Parse"   -> ParseP(e)
                  [] e.ev = "Decode"  -> DecodeP(e)
+                 [] e.ev = "Levels"  -> LevelsP(e)
                  [] e.ev = "Reset"   -> <<TargetOk(e.ver, e.enc) /\ AlphaOk(e.enc, e.alpha), "bad-case">>
                  [] OTHER -> Assert(FALSE, <<"unknown event", e.ev>>)
 DofEvent(e) ==
@@ -61,6 +67,7 @@ DofEvent(e) ==
                     tstart == DataStart(tcase.ver, tcase.enc, e.jh + 2)
                 IN IF Prefix(e.offs, tk) # LayOutOffsets(tstart, Prefix(e.sizes, tk)) THEN <<FALSE, "levels-not-contiguous">>
                    ELSE IF tenc.len # tstart + BSum(Prefix(e.sizes, tk)) THEN <<FALSE, "file-length">>
+                   ELSE IF tcase.enc = "jpeg" /\ e.jh > 624 THEN <<FALSE, "jpeg-header-longer-than-624">>
                    ELSE <<(e.hasMips # 0) <=> tcase.mips, "has-mipmaps-flag">>
       [] e.ev = "Decode" -> <<e.res # "ok" \/ tcase.enc # "raw1" \/ tcase.alpha # 4 \/ \A ti \in 1..Len(e.pairs) : e.pairs[ti][2] = Quant4(e.pairs[ti][1]), "4bit-rounding">>
       [] OTHER -> <<TRUE, "">>
